@@ -339,6 +339,7 @@ inductive Expr
   | var (name : String)                -- `name`
   | call (name : String) (args : List Val)   -- `name(a;b;c)` with literal arguments
   | undefq (name : String)             -- `:_name`
+  | defn (name : String) (code : Nat)  -- `name::{…}`: (re)bind a name to one of the known function bodies
 deriving Repr
 
 abbrev Store := List (String × Val)
@@ -371,6 +372,13 @@ def builtins : Store :=
   [("k0", .fn 0 0), ("id1", .fn 1 1), ("snd", .fn 2 2), ("trd", .fn 3 3), ("und1", .fn 1 4),
    ("pyid", .fn 1 5), ("pysnd", .fn 2 6), ("bump", .fn 1 7), ("keep", .fn 1 8), ("cnt", .int 0), ("last", .int 0)]
 
+/-- arity of the function bodies the harness (re)defines by text: `{77}` `{x}` `{x;y}` `{x;y;z}` -/
+def codeArity : Nat → Nat
+  | 0 => 0
+  | 2 => 2
+  | 3 => 3
+  | _ => 1
+
 def miniCall (s : Store) (f : Val) (ps : List Val) : Option (Store × Val) :=
   match f with
   | .fn _ code => builtinCall s code ps
@@ -382,6 +390,7 @@ def evalExpr (s : Store) : Expr → Option (Store × Val)
   | .var n => (s.get n).map (fun v => (s, v))
   | .call n args => (s.get n).bind (fun f => miniCall s f args)
   | .undefq n => (s.get n).map (fun v => (s, .int (if v.isUndef then 1 else 0)))
+  | .defn n code => some (s.set n (.fn (codeArity code) code), .fn (codeArity code) code)
 
 /-! ### driver: token codec and line protocol
 
@@ -450,7 +459,7 @@ def readVal (s : String) : Option Val :=
   | some (v, []) => some v
   | _ => Option.none
 
-/-- the parsed form of a text command: `lit,<v>` `assign,<name>,<v>` `var,<name>` `call,<name>,<list>` `undefq,<name>` -/
+/-- the parsed form of a text command: `lit,<v>` `assign,<name>,<v>` `var,<name>` `call,<name>,<list>` `undefq,<name>` `defn,<name>,<code>` -/
 def parseExpr (t : String) : Option Expr :=
   match splitOnChar t ',' with
   | "lit" :: ts => (readVal (",".intercalate ts)).map .lit
@@ -461,6 +470,7 @@ def parseExpr (t : String) : Option Expr :=
     | some (.list args) => some (.call n args)
     | _ => Option.none
   | ["undefq", n] => some (.undefq n)
+  | ["defn", n, c] => c.toNat?.map (.defn n)
   | [n] => some (.var n)               -- a bare name (what `str(KGSym)` sends) reads the variable
   | _ => Option.none
 
